@@ -38,7 +38,44 @@ CHECKS["C03"] = dict(
     technique="deterministic simulation: simulated thread pool and machine, rescaled strategy literals, seeded schedules, injected worker/spawn failures; relational strategy-vs-baseline and schedule-vs-schedule oracles",
 )
 
-NOT_APPLICABLE = {}
+CHECKS["C13"] = dict(
+    text="Seeded search over histories: one GroupBy is driven by a simulated client through 2-8 (thorough: 14) drawn steps -- any public operation with fresh "
+    "masks/columns, copy-constructor steps, class-form calls, failing calls, and in the fault configuration one injected worker failure -- under drawn strategy "
+    "knobs so that every key representation (contiguous, chunked with per-chunk dictionaries, chunked after unification, sorted prefix, arrow-chunked) is reached "
+    "at small sizes. After every step the outcome is compared with a fresh GroupBy used for that step only, and the grouping's labels and per-row labels are "
+    "compared with those at construction. Sampling: evidence, not proof.",
+    note="The model is a fresh object running the same code, so history-independent defects cancel out by design. Invariants read private attributes via getattr.",
+    design="4.3",
+    technique="deterministic simulation: stateful history generation against a fresh-object reference model, simulated thread pool, injected worker failures, cross-invariants after every step",
+)
+CHECKS["C19"] = dict(
+    text="Seeded search over client/library histories sharing memory: keys, values, masks and codes live in drawn containers (NumPy strided/offset/read-only views, "
+    "pandas NumPy- and Arrow-backed, Categorical, polars, pyarrow arrays and chunked arrays); after every step -- including failing steps and steps with an injected "
+    "worker failure -- byte-level fingerprints of every owning buffer and the grouping's labels are compared with the initial ones; after a scribble over every "
+    "writable byte of a returned result the fingerprints are checked again and the identical call repeated on the same and on a fresh object must equal a deep copy "
+    "of the first result. The simulated pool's shared-write monitor flags any task that writes into an argument array. Sampling: evidence, not proof.",
+    note="Trusts the fingerprint walker of gbsim/executor.py to reach every owning buffer; the client writes only where the result reports itself writable.",
+    design="4.4",
+    technique="deterministic simulation: client/library shared-memory histories with write monitors, result scribbling and repeat-call oracle, simulated thread pool with injected failures",
+)
+
+NOT_APPLICABLE = {
+    "C01": "pure function of (keys, values, mask): no schedule, history or fault in it; strategy dependence is decided under C03/C04 (C04's reference model is this definition at kernel level)",
+    "C02": "deterministic relation between a key array and its codes per route; route/chunk dependence is decided relationally under C03, survival across calls under C13",
+    "C05": "relation between two evaluations of a pure function (masked vs pre-filtered input); mask splitting across chunks is in C03's workload",
+    "C06": "non-interference of a pure function (delete null-key rows, compare); where null-key handling differs between strategies (pointer wrap-around, last-group pollution in EMA) it surfaced and was repaired under C03",
+    "C07": "relation between two outputs for one input; layout/history dependence of transform is decided under C03/C13 (apply/median transform order defect repaired there)",
+    "C08": "single-threaded pure kernel; 'interleaving of groups' is row order of the input array, not a run-time schedule",
+    "C09": "single-threaded pure kernel with per-group buffers; no task, knob, clock or shared state",
+    "C10": "pure kernel; `times` is an input array and the library never reads a clock, so there is no clock seam to skew",
+    "C11": "pure naming/ordering/shape logic; multi-column parallel dispatch is in C03's workload",
+    "C12": "container/dtype conversion is deterministic input normalisation; chunk boundaries of chunked arrays are a C03 strategy dimension",
+    "C14": "pure pandas post-processing of a computed frame (and the margin path raises ModuleNotFoundError on this environment)",
+    "C15": "single-threaded pure kernels; the int16 counter limit is an input-size defect, not an execution one",
+    "C16": "pure definitions and identities; apply's dispatch of the user function through the pool is in C03's op set",
+    "C17": "thin pure delegation to the core engine; its defects are argument mix-ups visible on any single call",
+    "C18": "pure input validation (a predicate on lengths and indexes); failing calls are reused as history steps in C13/C19",
+}
 
 def main():
     src = subprocess.run(["git", "-C", "/repo", "log", "--format=%H %s"], capture_output=True, text=True).stdout.splitlines()
